@@ -969,6 +969,11 @@ class Normalizer:
             c0 = a[0]
             if isinstance(c0, Term) and c0.op == "not" and len(c0.args) == 1:
                 return self.nf(Term("phi", c0.args[0], a[2], a[1]))  # if not c: A else: B
+            if isinstance(c0, Term) and c0.op in ("eq", "ne") and len(c0.args) == 2 and any(_is_zero_t(z) for z in c0.args) and not all(_is_zero_t(z) for z in c0.args):
+                # `if n == 0` is `if not n`, `if n != 0` is `if n`, for a count n
+                z_ = c0.args[1] if _is_zero_t(c0.args[0]) else c0.args[0]
+                if isinstance(z_, Term) and z_.op in ("count", "len"):
+                    return self.nf(Term("phi", z_, a[2], a[1]) if c0.op == "eq" else Term("phi", z_, a[1], a[2]))
             # the same slot of the same array written on both arms: one store of the selected value
             mg = self._merge_phi_stores(t)
             if mg is not t:
